@@ -748,10 +748,7 @@ Section Trace.
     do minl0 <- get_min_fold_count_limit args h;
     let minl := match minl0 with
                 | Some m =>
-                    if (match c_outputs sub with [] => true | _ => false end)
-                       && (match fo_fsout h with [] => true | _ => false end)
-                       && negb (has_tag_on_fold_count vs h)
-                    then Some m else None
+                    if min_eligible vs ss h sub then Some m else None
                 | None => None
                 end in
     do r3 <- foldM (fun acc c =>
